@@ -863,6 +863,7 @@ func runC12(c *Ctx) {
 	}
 	c.sharedBoxes()
 	c.omoObj("C06")
+	c.growShrink() // includes batches with a rejected value while the list has spare capacity
 	// the From-constructors called directly with something that is not one of their seven flavours
 	m.Case("from-constructors")
 	for _, g := range []*GV{gvUnsupported(0), gvUnsupported(3), gvUnsupported(11), gvInt(1), gvStr("s"), gvNil(), {K: '<', Fl: 'a'}, {K: '(', Fl: 'a'}, {K: '(', Fl: 's', NilC: true}, {K: '<', Fl: 'i', NilC: true}} {
